@@ -862,14 +862,23 @@ def S.readSlices (s : S) : S × RsResult :=
       | (s, .done none) => s.rsAfterConnect
     else s.rsAfterConnect
 
-/-- `BigMessage.ReadAll` (client.go:1343-1355) -/
+/-- the read loop of `BigMessage.ReadAll`: a deadline expiry that saw progress is tolerated, as in `discard` -/
+def readAllLoop : Nat → Rd → Nat → Bytes → Rd × Except Err Bytes
+  | 0, rd, _, _ => (rd, .error (mkErr ["other"]))
+  | fuel + 1, rd, size, acc =>
+    match rd.readFull (size - acc.length) with
+    | (rd, bs, none) => (rd, .ok (acc ++ bs))
+    | (rd, bs, some e) =>
+      if e == .timeout && !bs.isEmpty then readAllLoop fuel rd size (acc ++ bs)
+      else (rd, .error (mkErr [if e == .eof && !bs.isEmpty then "ueof" else rerrTag e]))
+
+/-- `BigMessage.ReadAll` (client.go:1379-1416) -/
 def S.readAll (s : S) : S × Except Err Bytes :=
   match s.big, s.rd? with
   | some size, some rd =>
     let s := { s with big := none }
-    match rd.readFull size with
-    | (rd, bs, none) => (s.setRd rd, .ok bs)
-    | (rd, bs, some e) => (s.setRd rd, .error (mkErr [if e == .eof && !bs.isEmpty then "ueof" else rerrTag e]))
+    match readAllLoop (size + 1) rd size [] with
+    | (rd, r) => (s.setRd rd, r)
   | _, _ => (s, .error (mkErr ["other"]))
 
 /-! ### Requests -/
